@@ -31,7 +31,7 @@ func H_C11_DateTime() {
 	vrt.Assert(pat != "", "date-time-schema-published")
 	dt := DateTime{civil.DateTime{
 		Date: civil.Date{Year: vrt.IntIn("year", -20000, 20000), Month: monthOf(vrt.IntIn("month", 0, 13)), Day: vrt.IntIn("day", 0, 32)},
-		Time: civil.Time{Hour: vrt.IntIn("hour", -1, 25), Minute: vrt.IntIn("minute", -1, 61), Second: vrt.IntIn("second", -1, 61)},
+		Time: civil.Time{Hour: vrt.IntIn("hour", -1, 25), Minute: vrt.IntIn("minute", -1, 61), Second: vrt.IntIn("second", -1, 61), Nanosecond: vrt.IntIn("nanosecond", -1, 1000000000)},
 	}}
 	if dt.IsZero() || dt.Validate() != nil {
 		return
